@@ -418,6 +418,19 @@ def _rep_probes(cfg, rng):
     k = m.demodulate(z)
     if np.shape(k) != () or _not_nearest(tab, complex(z), int(k)):
         _oracle_fail(sdem, 'not-nearest', sample=complex(z))
+    # long batches (scale probe, concrete): the M x N distance matrix has
+    # 2**19 .. 2**22 elements plus an odd remainder, so an implementation
+    # that works in blocks must also handle the last, partial block
+    for tot in (2**19, 2**22):
+        N = tot // M + 7
+        big = np.random.RandomState(rng.randrange(2**31)).randint(0, M, N)
+        out = np.asarray(rt(big))
+        if out.shape != big.shape or not np.array_equal(out, big):
+            wrong = np.flatnonzero(out.ravel()[:big.size] != big[:out.size]) \
+                if out.size else []
+            _oracle_fail(srt, 'long-batch-roundtrip-differs', samples=N,
+                         first_wrong=int(wrong[0]) if len(wrong) else None)
+        cnt += 1
     return cnt + 3
 
 
@@ -1596,7 +1609,9 @@ MANIFEST = dict(
     'square root compared on squares; literal phase offsets for emitted '
     'tables (arbitrary small tables symbolic); constructor guards are '
     'transcendental FP: swept concretely; negative indexes documented as '
-    'unchecked by the code and outside the property'
+    'unchecked by the code and outside the property; symbolic batches have '
+    '<= 2 samples - long batches (M x N distance matrix of 2**19 and 2**22 '
+    'elements plus an odd remainder) are a concrete round-trip probe'
     '. Concrete data-representation / scale / boundary probes of the real'
     ' code (dtype, container and memory-layout variants, argument'
     ' immutability, magnitudes) accompany the symbolic runs; they are'
